@@ -64,6 +64,27 @@ type fakeLndLightning struct {
 	lnrpc.LightningClient
 	mu    sync.Mutex
 	addrs []string
+	chans []*lnrpc.Channel // what ListChannels answers (C11: the adapters' channel-capacity arithmetic)
+}
+
+func (f *fakeLndLightning) ListChannels(ctx context.Context, in *lnrpc.ListChannelsRequest, opts ...grpc.CallOption) (*lnrpc.ListChannelsResponse, error) {
+	f.mu.Lock()
+	defer f.mu.Unlock()
+	return &lnrpc.ListChannelsResponse{Channels: f.chans}, nil
+}
+
+func (f *fakeLndLightning) ListPeers(ctx context.Context, in *lnrpc.ListPeersRequest, opts ...grpc.CallOption) (*lnrpc.ListPeersResponse, error) {
+	f.mu.Lock()
+	defer f.mu.Unlock()
+	r := &lnrpc.ListPeersResponse{}
+	for _, c := range f.chans {
+		r.Peers = append(r.Peers, &lnrpc.Peer{PubKey: c.RemotePubkey})
+	}
+	return r, nil
+}
+
+func (f *fakeLndLightning) GetChanInfo(ctx context.Context, in *lnrpc.ChanInfoRequest, opts ...grpc.CallOption) (*lnrpc.ChannelEdge, error) {
+	return nil, fmt.Errorf("edge not found") // the adapters ignore this error (graph information is optional)
 }
 
 func (f *fakeLndLightning) NewAddress(ctx context.Context, in *lnrpc.NewAddressRequest, opts ...grpc.CallOption) (*lnrpc.NewAddressResponse, error) {
